@@ -552,7 +552,18 @@ def compile_assign(
         if let_scope:
             target = let_scope.add(target)
 
-    if result.temp_variables and isinstance(target, Symbol) and ann is None:
+    if (
+        result.temp_variables
+        and isinstance(target, Symbol)
+        and ann is None
+        # The value has to be the temporary variable itself (or nothing, as
+        # for `defn`), not a larger expression that only mentions it, such
+        # as the `BoolOp` of `(and (if …) x)`.
+        and (
+            result.expr is None
+            or any(result.expr is v for v in result.temp_variables)
+        )
+    ):
         result.rename(compiler, compiler._nonconst(target))
         if not is_assignment_expr:
             # Throw away .expr to ensure that (setv ...) returns None.
